@@ -13,6 +13,7 @@ import (
 	"os"
 	"sort"
 	"sync"
+	"sync/atomic"
 	"time"
 
 	faiss "github.com/blevesearch/go-faiss"
@@ -88,6 +89,19 @@ func sortHits(h []OVecHit) []OVecHit {
 	return r
 }
 
+// scheduling gate of a vector cache lookup (verif hook between its two critical sections)
+type vcGate struct{ reached, release chan struct{} }
+type vcOpened struct {
+	vi  segment.VectorIndex
+	err error
+}
+type vcPending struct {
+	g    *vcGate
+	done chan vcOpened
+}
+
+var curGate atomic.Pointer[vcGate]
+
 func runVecCache(walksPath, tablesPath, dir, outPath string, stress int) {
 	var tb vcTables
 	raw, err := os.ReadFile(tablesPath)
@@ -103,6 +117,13 @@ func runVecCache(walksPath, tablesPath, dir, outPath string, stress int) {
 	plugin := &zap.ZapPlugin{}
 	zap.DefaultChunkMode = 1026
 	zap.VerifVecCacheSetMonitorFreq(time.Hour) // the timer is parked: expiry passes are explicit events
+	zap.VerifVecCacheGate = func() {
+		if g := curGate.Swap(nil); g != nil {
+			close(g.reached)
+			<-g.release
+		}
+	}
+	gated := 0
 	q := make([]float32, len(tb.Query))
 	for i, x := range tb.Query {
 		q[i] = float32(x)
@@ -174,6 +195,7 @@ func runVecCache(walksPath, tablesPath, dir, outPath string, stress int) {
 		seg := newSeg(kind)
 		segOpen := true
 		handles := map[int]segment.VectorIndex{}
+		pend := map[int]*vcPending{}
 		diff := func(i int, what string, got, want interface{}) {
 			diffs = append(diffs, vcDiff{Walk: w, Kind: kind, Step: i, What: what, Got: js(got), Want: js(want)})
 		}
@@ -187,12 +209,55 @@ func runVecCache(walksPath, tablesPath, dir, outPath string, stress int) {
 				st := &w.Steps[i]
 				nsteps++
 				switch st.Op {
-				case "open":
+				case "openslow":
+					// second critical section of a lookup that missed: let the parked searcher go on
+					if p := pend[st.H]; p != nil {
+						delete(pend, st.H)
+						close(p.g.release)
+						r := <-p.done
+						if r.err != nil {
+							diff(i, "InterpretVectorIndex", r.err.Error(), nil)
+							return
+						}
+						handles[st.H] = r.vi
+					}
+				case "open", "openmiss":
 					ex := bmOf(st.Ex)
 					if len(st.Ex) == 0 && nilEx {
 						ex = nil
 					} else if ex == nil {
 						ex = bmOf([]int{})
+					}
+					if st.Op == "openmiss" {
+						// the lookup runs in its own goroutine and parks at the scheduling point between its two
+						// critical sections (if the real cache has the entry it simply completes: the model's
+						// eviction is a may, not a must)
+						g := &vcGate{reached: make(chan struct{}), release: make(chan struct{})}
+						done := make(chan vcOpened, 1)
+						curGate.Store(g)
+						go func(filter bool) {
+							var r vcOpened
+							defer func() {
+								if x := recover(); x != nil {
+									r.err = fmt.Errorf("panic: %v", x)
+								}
+								done <- r
+							}()
+							r.vi, r.err = seg.(segment.VectorSegment).InterpretVectorIndex("v", filter, ex)
+						}(st.Filter)
+						select {
+						case <-g.reached:
+							pend[st.H] = &vcPending{g: g, done: done}
+							gated++
+						case r := <-done:
+							curGate.Store(nil)
+							if r.err != nil {
+								diff(i, "InterpretVectorIndex", r.err.Error(), nil)
+								return
+							}
+							handles[st.H] = r.vi
+						}
+						break
 					}
 					vi, err := seg.(segment.VectorSegment).InterpretVectorIndex("v", st.Filter, ex)
 					if err != nil {
@@ -214,9 +279,10 @@ func runVecCache(walksPath, tablesPath, dir, outPath string, stress int) {
 					delete(handles, st.H)
 				case "tick":
 					_, before := zap.VerifVecCacheRefs(seg, "v")
-					// one tick of the walk = three expiry passes (the moving average needs idle passes
-					// before an entry expires; the model allows any number of non-evicting ticks)
-					for pass := 0; pass < 3; pass++ {
+					// one tick of the walk = one, three or eight expiry passes (the moving average needs idle
+					// passes before an entry expires - eight always suffice for up to three hits -; the model
+					// allows both the evicting and the non-evicting outcome)
+					for pass := 0; pass < []int{1, 3, 8}[(nw+i)%3]; pass++ {
 						zap.VerifVecCacheTick(seg)
 					}
 					_, after := zap.VerifVecCacheRefs(seg, "v")
@@ -242,6 +308,13 @@ func runVecCache(walksPath, tablesPath, dir, outPath string, stress int) {
 				}
 			}
 		}()
+		for h, p := range pend {
+			close(p.g.release)
+			if r := <-p.done; r.err == nil && r.vi != nil {
+				handles[h] = r.vi
+			}
+		}
+		curGate.Store(nil)
 		for _, vi := range handles {
 			vi.Close()
 		}
@@ -320,5 +393,5 @@ func runVecCache(walksPath, tablesPath, dir, outPath string, stress int) {
 		}
 	}
 	tr.Close()
-	fmt.Printf("walks=%d steps=%d evictions=%d stress_rounds=%d diffs=%d\n", nw, nsteps, evictions, stress, len(diffs))
+	fmt.Printf("walks=%d steps=%d evictions=%d gated=%d stress_rounds=%d diffs=%d\n", nw, nsteps, evictions, gated, stress, len(diffs))
 }
